@@ -1,0 +1,23 @@
+//go:build verif
+
+package cep
+
+// Accessors for the verification harness (/verif, property C15). Read-only.
+
+// VerifMaxRuns returns the largest number of live partial matches held by one partition
+// and the largest number of pending (completed, not yet emitted) starts of one partition.
+// The harness uses it to keep generated cases away from the maxRuns guard.
+func (e *Engine) VerifMaxRuns() (runs, pending int) {
+	e.mu.Lock()
+	defer e.mu.Unlock()
+	for el := e.lru.Front(); el != nil; el = el.Next() {
+		p := el.Value.(*partition)
+		if len(p.runs) > runs {
+			runs = len(p.runs)
+		}
+		if len(p.pending) > pending {
+			pending = len(p.pending)
+		}
+	}
+	return runs, pending
+}
